@@ -43,7 +43,7 @@ def inv_map(ctx, d, labels, what):
     return pos if ok else None
 
 
-@harness("C12.matrices")
+@harness("C12.matrices", raises_are_violations=True)
 def matrices(ctx, p):
     shape = _shape(p["shape"])
     N, M, edges = shape
@@ -108,7 +108,7 @@ def matrices(ctx, p):
             ctx.require(all(P[ppos[x], ppos[y]] == len(E[x] & E[y]) for x in range(len(E)) for y in range(len(E))), "intersection profile differs from the pairwise intersection sizes")
 
 
-@harness("C12.laplacians")
+@harness("C12.laplacians", raises_are_violations=True)
 def laplacians(ctx, p):
     shape = _shape(p["shape"])
     N, M, edges = shape
